@@ -1,4 +1,4 @@
-From Tramp Require Import Model.Base Model.Node Model.Provider Model.ProviderSys Proofs.ProviderProofs Props.C15.
+From Tramp Require Import Model.Base Model.Node Model.Provider Model.ProviderSys Proofs.ProviderProofs Proofs.ProviderTyped Props.C15.
 Check C15_wait : forall (parts0 : list pstat) (evs : list pevent),
   hist_ok (wait_init parts0) evs = true ->
   let s := prun (wait_init parts0) evs in
@@ -13,7 +13,11 @@ Check C15_part_failure_does_not_abort : forall base aw cid,
   existsb (fun x => Nat.eqb (snd x) cid) aw = true ->
   exists rest, wait_deliver base (WParts aw) cid YPartFailed = Some (WGo (WParts rest) []) /\ rest <> []
                /\ forall pid' cid', In (pid', cid') rest <-> In (pid', cid') aw /\ cid' <> cid.
+Check C15_error_only_after_a_read_error : forall (parts0 : list pstat) (evs : list pevent),
+  hist_ok (wait_init parts0) evs = true -> hist_clean (wait_init parts0) evs = true ->
+  ps_st (prun (wait_init parts0) evs) <> SFin PErr.
 Print Assumptions C15_wait.
 Print Assumptions C15_invariant_everywhere.
 Print Assumptions C15_part_failure_does_not_abort.
 Print Assumptions C15_between_queries.
+Print Assumptions C15_error_only_after_a_read_error.
